@@ -8,6 +8,7 @@ import (
 	"fmt"
 	"io"
 	"net/http"
+	"net/http/httptest"
 	"strings"
 	"sync"
 
@@ -27,9 +28,19 @@ type wlog struct {
 
 type wlogKey struct{}
 
+// wlogByID finds the log of a request that travelled through a real server (no shared context): header X-Wlog.
+var wlogByID sync.Map
+
 func wlogOf(r *http.Request) *wlog {
-	l, _ := r.Context().Value(wlogKey{}).(*wlog)
-	return l
+	if l, ok := r.Context().Value(wlogKey{}).(*wlog); ok {
+		return l
+	}
+	if id := r.Header.Get("X-Wlog"); id != "" {
+		if l, ok := wlogByID.Load(id); ok {
+			return l.(*wlog)
+		}
+	}
+	return nil
 }
 
 func (l *wlog) write(w io.Writer, p []byte) {
@@ -138,8 +149,9 @@ type c07Case struct {
 	FilterPost bool   `json:"filter_post"`
 	CustomErr  bool   `json:"custom_error_handler"`
 	CustomRec  bool   `json:"custom_recover_handler"`
-	Status     int    `json:"status"`  // explicit status written by the handler first (0: none)
-	Forward    bool   `json:"forward"` // the addressed route hands its Response to a nested Dispatch for the real route
+	Status     int    `json:"status"`      // explicit status written by the handler first (0: none)
+	Forward    bool   `json:"forward"`     // the addressed route hands its Response to a nested Dispatch for the real route
+	Real       bool   `json:"real_server"` // the container sits behind a real net/http server; an http.Client reads the response
 }
 
 var (
@@ -175,7 +187,7 @@ func valid07(k *c07Case) bool {
 
 func c07(ctx *core.Ctx) {
 	quietLogs()
-	ctx.Rule("matrix: entry {ServeHTTP, Dispatch, Handle, HandleWithFilter} x container switch x route override {unset, off, on} x Accept-Encoding (12 values) x pre-set Content-Encoding x provider {sync.Pool, bounded 0/1/4, custom non-pooling, custom recycling-on-release} x outcome {ok, 404, 405, 406, 415, panic before output, panic after partial output} x writer already a CompressingResponseWriter x payload {0, 1, 100, 70000 (1 MB thorough)} in random chunks across a container filter (before/after) and the handler, explicit handler statuses {none, 200, 201, 206, 404, 500}, forwarding handlers (Response handed to a nested Dispatch before anything is written); custom or default error/recover writers. quick: seeded random sample of cells; thorough: the full product of the switch dimensions, forty payload/chunkings per cell. Oracle per response: applied coding => label in {gzip,deflate}, Accept-Encoding mentions it, encoding enabled for the request, complete-stream decode == logged bytes; else body == logged bytes and no Content-Encoding added. Non-trivial = a response with a non-empty body or an applied coding; distinct by the switch cell (entry, cont, route, AE, preset, outcome, prewrapped, applied).")
+	ctx.Rule("matrix: entry {ServeHTTP, Dispatch, Handle, HandleWithFilter} x container switch x route override {unset, off, on} x Accept-Encoding (12 values) x pre-set Content-Encoding x provider {sync.Pool, bounded 0/1/4, custom non-pooling, custom recycling-on-release} x outcome {ok, 404, 405, 406, 415, panic before output, panic after partial output} x writer already a CompressingResponseWriter x payload {0, 1, 100, 70000 (1 MB thorough)} in random chunks across a container filter (before/after) and the handler, explicit handler statuses {none, 200, 201, 206, 404, 500}, forwarding handlers (Response handed to a nested Dispatch before anything is written); custom or default error/recover writers; every 5th ServeHTTP cell runs behind a real net/http server and is read by an http.Client (no transparent decompression). quick: seeded random sample of cells; thorough: the full product of the switch dimensions, forty payload/chunkings per cell. Oracle per response: applied coding => label in {gzip,deflate}, Accept-Encoding mentions it, encoding enabled for the request, complete-stream decode == logged bytes; else body == logged bytes and no Content-Encoding added. Non-trivial = a response with a non-empty body or an applied coding; distinct by the switch cell (entry, cont, route, AE, preset, outcome, prewrapped, applied).")
 	ctx.Assume("the property does not demand that a coding is applied when enabled; evidence reports how many responses were encoded",
 		"with the default recover handler the stack text is not predictable: prefix and stream completeness are judged")
 	defer restful.SetCompressorProvider(restful.NewSyncPoolCompessors())
@@ -256,6 +268,7 @@ func c07(ctx *core.Ctx) {
 		if k.FilterPre {
 			k.Status = 0 // the filter has already sent the status line
 		}
+		k.Real = k.Entry == "ServeHTTP" && !k.Preset && !k.Prewrapped && ci%5 == 0
 		k.CustomErr, k.CustomRec = r.Chance(1, 2), r.Chance(2, 3)
 		if ci%97 == 0 || ctx.OnlyCase >= 0 {
 			ctx.Case(ci, core.JSON(k))
@@ -398,6 +411,9 @@ func runC07(k *c07Case, seed uint64, ae string) (*c07Obs, []byte) {
 		req.Hdr["Accept-Encoding"] = ae
 	}
 	l := &wlog{}
+	if k.Real {
+		return runC07Real(c, &req, l, seed)
+	}
 	hr := rt.HTTPRequest(&req, nil)
 	hr = hr.WithContext(context.WithValue(context.Background(), wlogKey{}, l))
 	rec := rt.NewRec()
@@ -428,6 +444,54 @@ func runC07(k *c07Case, seed uint64, ae string) (*c07Obs, []byte) {
 	return obs, l.b.Bytes()
 }
 
+// runC07Real serves the request through a real net/http server and reads it with an http.Client that does not
+// decompress on its own: Content-Length / chunking, the server's own header handling and connection reuse are real.
+func runC07Real(c *restful.Container, req *rt.Req, l *wlog, seed uint64) (*c07Obs, []byte) {
+	id := fmt.Sprintf("w%d", seed)
+	wlogByID.Store(id, l)
+	defer wlogByID.Delete(id)
+	srv := httptest.NewServer(c)
+	defer srv.Close()
+	var body io.Reader
+	if req.BodyLen > 0 {
+		body = strings.NewReader(strings.Repeat("b", req.BodyLen))
+	}
+	hreq, err := http.NewRequest(req.Method, srv.URL+req.Path, body)
+	obs := &c07Obs{}
+	if err != nil {
+		obs.LenErr = err
+		return obs, l.b.Bytes()
+	}
+	for k, v := range req.Hdr {
+		hreq.Header.Set(k, v)
+	}
+	if req.HasCT {
+		hreq.Header.Set("Content-Type", req.CT)
+	}
+	if req.HasAcc {
+		hreq.Header.Set("Accept", req.Accept)
+	}
+	if _, ok := req.Hdr["Accept-Encoding"]; !ok {
+		hreq.Header.Set("Accept-Encoding", "identity;q=0.001") // keep the transport from asking for gzip on its own
+		hreq.Header.Del("Accept-Encoding")
+	}
+	hreq.Header.Set("X-Wlog", id)
+	client := &http.Client{Transport: &http.Transport{DisableCompression: true}}
+	resp, err := client.Do(hreq)
+	if err != nil {
+		obs.LenErr = fmt.Errorf("client: %v", err)
+		return obs, l.b.Bytes()
+	}
+	defer resp.Body.Close()
+	b, rerr := io.ReadAll(resp.Body)
+	obs.Status, obs.Header, obs.Body = resp.StatusCode, resp.Header, b
+	if rerr != nil {
+		obs.LenErr = fmt.Errorf("client reading the body: %v", rerr)
+	}
+	client.CloseIdleConnections()
+	return obs, l.b.Bytes()
+}
+
 type c07Panic struct {
 	log  *wlog
 	text string
@@ -443,6 +507,9 @@ func judgeC07(ctx *core.Ctx, ci int, k *c07Case, obs *c07Obs, logged []byte) {
 		return "off"
 	}
 	cell := fmt.Sprintf("entry=%s:cont=%s:route=%s", k.Entry, on(k.Cont), k.Route)
+	if k.Real {
+		ctx.Count("responses_read_by_a_real_http_client", 1)
+	}
 	doc := map[string]interface{}{"case": k, "status": obs.Status, "content_encoding": obs.Header["Content-Encoding"], "body_len": len(obs.Body), "logged_len": len(logged)}
 	if obs.Panic != nil {
 		ctx.Violation(ci, "c07:panic-escaped:"+cell, fmt.Sprintf("panic escaped although recovery is on: %v", obs.Panic), doc)
